@@ -17,6 +17,7 @@ import (
 	"github.com/TarsCloud/TarsGo/tars/util/gpool"
 	"github.com/TarsCloud/TarsGo/tars/util/grace"
 	"github.com/TarsCloud/TarsGo/tars/util/gtime"
+	"github.com/TarsCloud/TarsGo/tars/util/vhook"
 )
 
 type tcpHandler struct {
@@ -73,9 +74,15 @@ func (t *tcpHandler) handleConn(connSt *connInfo, pkg []byte) {
 	// recvPkgTs are more accurate
 	ctx := t.getConnContext(connSt)
 	atomic.AddInt32(&connSt.numInvoke, 1)
+	if vhook.Enabled {
+		vhook.At("tcp.handleConn", connSt.conn, pkg)
+	}
 	handler := func() {
 		defer atomic.AddInt32(&connSt.numInvoke, -1)
 		rsp := t.server.invoke(ctx, pkg)
+		if vhook.Enabled {
+			vhook.At("tcp.handler.invoked", connSt.conn, pkg, rsp)
+		}
 
 		cPacketType, ok := current.GetPacketTypeFromContext(ctx)
 		if !ok {
@@ -87,6 +94,9 @@ func (t *tcpHandler) handleConn(connSt *connInfo, pkg []byte) {
 
 		if _, err := connSt.conn.Write(rsp); err != nil {
 			TLOG.Errorf("send pkg to %v failed %v", connSt.conn.RemoteAddr(), err)
+		}
+		if vhook.Enabled {
+			vhook.At("tcp.handler.written", connSt.conn, pkg)
 		}
 	}
 
@@ -143,8 +153,14 @@ func (t *tcpHandler) Handle() error {
 			t.conns.Delete(key)
 		}(conn)
 	}
+	if vhook.Enabled {
+		vhook.At("tcp.accept.exit", t.config.Address)
+	}
 	if t.pool != nil {
 		t.pool.Release()
+	}
+	if vhook.Enabled {
+		vhook.At("tcp.accept.released", t.config.Address)
 	}
 	return nil
 }
@@ -216,6 +232,9 @@ func (t *tcpHandler) recv(connSt *connInfo) {
 		}
 		TLOG.Debugf("Close connection: %v", conn.RemoteAddr())
 		conn.Close()
+		if vhook.Enabled {
+			vhook.At("tcp.recv.closed", conn)
+		}
 
 		ctx := t.getConnContext(connSt)
 		t.server.protocol.DoClose(ctx)
@@ -256,6 +275,9 @@ func (t *tcpHandler) recv(connSt *connInfo) {
 			}
 			return
 		}
+		if vhook.Enabled {
+			vhook.At("tcp.recv.read", conn, n)
+		}
 		currBuffer = append(currBuffer, buffer[:n]...)
 		for {
 			pkgLen, status := t.server.protocol.ParsePackage(currBuffer)
@@ -272,6 +294,9 @@ func (t *tcpHandler) recv(connSt *connInfo) {
 				}
 				currBuffer = nil
 				break
+			}
+			if vhook.Enabled {
+				vhook.At("tcp.recv.parseError", conn)
 			}
 			TLOG.Errorf("parse package error %s %v", conn.RemoteAddr(), err)
 			return
